@@ -128,3 +128,10 @@ META["C20"] = dict(
     text=("Generated create/ref/unref/set_* histories over a pool of images against a reference-count model; unref return values, "
           "destroy callbacks, alpha-map lifetimes and the library's live allocation count are checked, under ASan/LSan."),
     note="Trusted: the model in props/lifetime.cpp; ASan/LSan; the allocation shims. Found and fixed: S21.")
+META["C15"] = dict(
+    technique="fault injection driven by property-based testing (rapidcheck): generated API scenarios x exhaustive enumeration of the failing allocation (single and persistent), under ASan with a live-allocation counter",
+    design_ref="§4 C15",
+    text=("For each generated scenario every allocation position is failed in turn (single and persistent): exhaustive over "
+          "fault positions for the generated scenarios, sampled over scenarios. Crashes, leaks, non-propagated failures and "
+          "wrong-but-reported-success results are violations."),
+    note="Trusted: allocation shims (buildsys/vf_alloc.c), ASan. Fault positions are exhaustive per scenario; scenarios are a sample.")
